@@ -49,7 +49,7 @@ class VPool:
 
 
 class World:
-    def __init__(self, scenario: dict, faults: int):
+    def __init__(self, scenario: dict, faults: int, early_ticks: int = 0):
         for mod, names in (
             (comms, ("zmq", "get_context")), (ds_mod, ("ThreadPoolExecutor", "wait", "time_ns", "shm_api")),
             (shm_client, ("socket", "SharedMemory", "multiprocessing", "time")), (shm_server, ("socket", "signal")),
@@ -60,7 +60,9 @@ class World:
         import logging.config
 
         logging.config.dictConfig = lambda *a, **k: None
-        self.scenario, self.faults_left = scenario, faults
+        self.scenario, self.faults_left, self.early_left = scenario, faults, early_ticks
+        self.wait_choices: list = []
+        self.wait_options: list = []
         self.net = Net(staged=True)
         self.net.local_prefixes = ("m.",)  # notices to the host's executor are local
         self.clock = [10_000_000_000_000]
@@ -190,14 +192,21 @@ class World:
         pool = self.ds[self.cur].ds_proc_tp
         futs = list(futs)
         if return_when == ds_mod.FIRST_COMPLETED:
-            if any(f.done() for f in futs):
+            if not futs or any(f.done() for f in futs):
                 return
-            if not pool.pending:
-                raise HarnessError("wait(FIRST_COMPLETED) with nothing pending")
-            pool.complete(0)
+            mine = [i for i, (f, _, _) in enumerate(pool.pending) if f in futs]
+            if not mine:
+                raise HarnessError("wait(FIRST_COMPLETED) on futures that are neither done nor pending")
+            # which future finishes first is the thread pool's choice: default the oldest, scripted otherwise
+            c = self.wait_choices.pop(0) if self.wait_choices else 0
+            self.wait_options.append(len(mine))
+            pool.complete(mine[c % len(mine)])
         else:
-            while pool.pending:
-                pool.complete(0)
+            while any(not f.done() for f in futs):
+                mine = [i for i, (f, _, _) in enumerate(pool.pending) if f in futs]
+                if not mine:
+                    raise HarnessError("wait(ALL_COMPLETED) on futures that are neither done nor pending")
+                pool.complete(mine[0])
 
     def on_shm_purge(self, h, key):
         pool = self.ds[h].ds_proc_tp
@@ -215,14 +224,17 @@ class World:
         c = self.scenario["commands"][i]
         kind = c[0]
         d = DatasetId(c[1], "0")
+        # the controller numbers its acknowledged sends with one counter over all hosts and message kinds, independently
+        # of the transmit idx: small numbers on both sides, so the two number spaces overlap (offset per scenario)
+        syn = self.scenario.get("ctrl_syn_offset", 1) + i
         if kind == "transmit":
             _, _, src, dst, idx = c
             m = msg.DatasetTransmitCommand(source=src, target=dst, daddress=f"d.{dst}", ds=d, idx=idx)
-            return f"d.{src}", [ser_message(msg.Syn(1000 + idx, "ctrl")), ser_message(m)], True
+            return f"d.{src}", [ser_message(msg.Syn(syn, "ctrl")), ser_message(m)], True
         if kind == "fetch":
             _, _, src, idx = c
             m = msg.DatasetTransmitCommand(source=src, target="controller", daddress="ctrl", ds=d, idx=idx)
-            return f"d.{src}", [ser_message(msg.Syn(1000 + idx, "ctrl")), ser_message(m)], True
+            return f"d.{src}", [ser_message(msg.Syn(syn, "ctrl")), ser_message(m)], True
         if kind == "purge":
             _, _, host = c
             return f"d.{host}", [ser_message(msg.DatasetPurge(ds=d))], False
@@ -264,8 +276,9 @@ class World:
                 evs.append(("complete", h, j))
         # time passes (one 4 s poll timeout): every data server runs a loop pass incl. its retry scan. Only when no frame
         # is in flight (timers fire when nothing else is enabled) and some server has bookkeeping to do.
-        if not self.net.flight and any(h not in self.crashed and (self.ds[h].awaiting_confirmation or self.ds[h].futs_in_progress) and not self.ds[h].ds_proc_tp.pending for h in HOSTS):
-            evs.append(("tick",))
+        quiet = not self.net.flight and not any(self.ds[h].ds_proc_tp.pending for h in HOSTS if h not in self.crashed)
+        if any(h not in self.crashed and (self.ds[h].awaiting_confirmation or self.ds[h].futs_in_progress) for h in HOSTS) and (quiet or self.early_left > 0):
+            evs.append(("tick",))  # a timer firing while frames are in flight or futures are running costs from the early-timer budget
         return evs
 
     def _retry_due(self, h):
@@ -302,7 +315,14 @@ class World:
                 self.net.duplicate(i)
                 self.faults_left -= 1
         elif k == "pass":
+            self.wait_choices = list(ev[2]) if len(ev) > 2 else []
             self.do_pass(ev[1])
+        elif k == "queue":  # a frame arrives while the loop is busy: it is handled together with the next batch
+            self.net.deliver(self.net.deliverable()[ev[1]])
+        elif k == "issue-queued":
+            addr, frames, staged = self.cmd_frames(self.issued)
+            self.issued += 1
+            self.net.queues[addr].append(frames)
         elif k == "complete":
             self.cur = ev[1]
             self.ds[ev[1]].ds_proc_tp.complete(ev[2])
@@ -312,6 +332,8 @@ class World:
                 if isinstance(m, msg.DatasetTransmitPayload):
                     self.ctrl_payloads.append(m)
         elif k == "tick":
+            if self.net.flight or any(self.ds[h].ds_proc_tp.pending for h in HOSTS if h not in self.crashed):
+                self.early_left -= 1
             self.clock[0] += RETRY_NS
             for h in HOSTS:
                 if h not in self.crashed:
@@ -453,15 +475,15 @@ class World:
                 tuple(map(repr, self.published(h))),
             ))
         return (
-            self.issued, self.faults_left, tuple(per),
+            self.issued, self.faults_left, self.early_left, tuple(per),
             tuple((a, frames(fr), r) for (a, fr, _), r in zip(self.net.flight, ranks)),
             tuple((a, tuple(frames(fr) for fr in q)) for a, q in sorted(self.net.queues.items()) if q and not a.startswith("m.")),
             tuple(repr(p.header) for p in self.ctrl_payloads), tuple(sorted(map(repr, self.ctrl.acked))),
         )
 
 
-def build(scenario: dict, faults: int, hist: list) -> World:
-    w = World(scenario, faults)
+def build(scenario: dict, faults: int, hist: list, early_ticks: int = 0) -> World:
+    w = World(scenario, faults, early_ticks)
     for ev in hist:
         w.apply(tuple(ev))
     return w
@@ -482,6 +504,66 @@ SCENARIOS = {
                   "expect": [("held", "d", "B"), ("announced", "d", "B", 1, 1), ("not-held", "d", "A")]},
     "T-to-holder": {"initial": [("A", "d"), ("B", "d")], "commands": [("transmit", "d", "A", "B", 0)],
                     "expect": [("held", "d", "B"), ("announced", "d", "B", 0, 0)]},
+    # both directions: B is a source first and a target later; controller Syn numbers overlap the transmit idx space
+    "T(d:A>B),T(e:B>A)": {"initial": [("A", "d"), ("B", "e")], "commands": [("transmit", "d", "A", "B", 0), ("transmit", "e", "B", "A", 1)],
+                          "expect": [("held", "d", "B"), ("held", "e", "A"), ("announced", "d", "B", 1, 1), ("announced", "e", "A", 1, 1)]},
+    # a purge at the source of e while a (retry) read of e and a read of another dataset may both be in progress
+    "T(d),T(e);purge(e)@A": {"initial": [("A", "d"), ("A", "e")], "commands": [("transmit", "e", "A", "B", 0), ("transmit", "d", "A", "B", 1), ("purge", "e", "A")],
+                             "purge_guard": {"2": "after-answer", "target": "B"},
+                             "expect": [("held", "d", "B"), ("held", "e", "B"), ("announced", "d", "B", 1, 1), ("announced", "e", "B", 1, 1), ("not-held", "e", "A")]},
     "T(d),T(e)": {"initial": [("A", "d"), ("A", "e")], "commands": [("transmit", "d", "A", "B", 0), ("transmit", "e", "A", "B", 1), ("fetch", "e", "A", 2)],
                   "expect": [("held", "d", "B"), ("held", "e", "B"), ("announced", "d", "B", 1, 1), ("announced", "e", "B", 1, 1), ("fetched", "e")]},
 }
+
+
+def batch_pass_check() -> tuple[int, list]:
+    """Batches: several frames handled by ONE loop pass, with every choice of which future `wait(FIRST_COMPLETED)` sees
+    finishing first. Prepared state: e was transferred A->B and announced, its confirmation was lost, the 4 s scan
+    started a retry read of e at A; then the command for d and the purge of e reach A's loop in one batch."""
+    sc = SCENARIOS["T(d),T(e);purge(e)@A"]
+
+    def to(w, addr, kind="deliver"):
+        for k, i in enumerate(w.net.deliverable()):
+            if w.net.flight[i][0] == addr:
+                w.apply((kind, k))
+                return
+        raise HarnessError(f"batch scenario: no frame in flight to {addr}: {[f[0] for f in w.net.flight]}")
+
+    def prepare():
+        w = build(sc, 1, [], 0)
+        w.apply(("issue",))            # command T(e: A->B)
+        to(w, "d.A")                   # arrives at A, read of e submitted
+        w.apply(("complete", "A", 0))  # payload sent
+        to(w, "d.B")                   # arrives at B, store submitted
+        w.apply(("complete", "B", 0))  # stored and announced
+        to(w, "d.A", "drop")           # the confirmation is lost
+        while w.net.flight:            # acknowledgements to the controller
+            w.apply(("deliver", 0))
+        w.apply(("tick",))             # 4 s later A's scan starts a retry read of e
+        return w
+
+    runs = 0
+    viols: dict = {}
+    stack = [[]]
+    while stack:
+        choices = stack.pop()
+        w = prepare()
+        if not w.ds["A"].ds_proc_tp.pending:
+            raise HarnessError("batch scenario: the retry read of e is not pending")
+        if not w.cmd_enabled(2):
+            raise HarnessError("batch scenario: purge not enabled (e not announced at B)")
+        w.apply(("issue-queued",))   # command for d
+        w.apply(("issue-queued",))   # purge of e
+        w.apply(("pass", "A", choices))
+        runs += 1
+        for i in range(len(choices), len(w.wait_options)):
+            for alt in range(1, w.wait_options[i]):
+                stack.append(choices + [0] * (i - len(choices)) + [alt])
+        v = list(w.viol) or build_after(w)
+        for (m, c, msg_) in v:
+            viols.setdefault((m, c), (msg_, {"batch": True, "choices": choices}))
+    return runs, [(m, c, msg_, rp) for (m, c), (msg_, rp) in viols.items()]
+
+
+def build_after(w: "World") -> list:
+    return w.closure()
